@@ -234,12 +234,12 @@ func (x *c02Ctx) unbound(key, content []byte) (clause, site string) {
 	case 0x01:
 		txs, uncles, wds, legacy, ok := refBodyValue(content)
 		if !ok {
-			x.r.Count("model_drift_reference_cannot_decode_accepted_body", 1)
-			body, err := history.DecodePortalBlockBodyBytes(content)
-			if err != nil {
-				return "accepted-content-decodes", "body"
-			}
-			txs, uncles, wds, legacy = body.Transactions, body.Uncles, body.Withdrawals, body.Withdrawals == nil
+			// The independent decoder (SSZ split + rlp of transactions, uncles, withdrawals)
+			// cannot read a body the validator accepted: its roots cannot equal the header's.
+			// (Never observed on the unchanged tree in either tier; an earlier version fell
+			// back to the repository's own decoder here and so missed a seeded change that made
+			// that decoder swallow the uncle-list error.)
+			return "accepted-content-decodes", "body"
 		}
 		if t == nil {
 			return "body-bound-to-key-header", served
@@ -256,12 +256,7 @@ func (x *c02Ctx) unbound(key, content []byte) (clause, site string) {
 	case 0x02:
 		l, ok := refList(content)
 		if !ok {
-			x.r.Count("model_drift_reference_cannot_decode_accepted_receipts", 1)
-			p := new(history.PortalReceipts)
-			if p.UnmarshalSSZ(content) != nil {
-				return "accepted-content-decodes", "receipts"
-			}
-			l = p.Receipts
+			return "accepted-content-decodes", "receipts"
 		}
 		var rcs types.Receipts
 		for _, raw := range l {
